@@ -10,6 +10,16 @@ use crate::reasoning::rules::matches_rule_pattern;
 impl Reasoner {
 
     pub fn infer_new_facts_semi_naive_parallel(&mut self) -> Vec<Triple> {
+        // The parallel join below implements rules with one or two premises and neither
+        // filters nor NOT atoms. Any other rule would be skipped or applied without its
+        // filters, so such rule sets are evaluated by the sequential semi-naive strategy.
+        let unsupported = self.rules.iter().any(|rule| {
+            rule.premise.len() > 2 || !rule.filters.is_empty() || !rule.negative_premise.is_empty()
+        });
+        if unsupported {
+            return self.infer_new_facts_semi_naive();
+        }
+
         // Collect all known facts
         let all_initial = self.dataset_index.query(None, None, None);
         let mut all_facts: HashSet<Triple> = all_initial.into_iter().collect();
